@@ -21,7 +21,7 @@ type Op struct {
 
 var OpKinds = []string{
 	"edit-text", "edit-attr", "remove-el", "add-attr", "wrap-root", "forge-assertion", "dup-el", "move-sig", "swap-sig",
-	"strip-sig", "id-game", "ref-game", "sig-shape", "resign", "ns-trick", "comment-trick", "encrypt", "splice", "rename-el", "nest-el",
+	"strip-sig", "id-game", "ref-game", "sig-shape", "resign", "ns-trick", "comment-trick", "encrypt", "splice", "rename-el", "nest-el", "nest-assertion",
 }
 
 func GenOp() *rapid.Generator[Op] {
@@ -416,6 +416,40 @@ func (c *AttackCtx) Apply(root *etree.Element, op Op) *etree.Element {
 		tags := []string{"Response", "LogoutResponse", "LogoutRequest", "Assertion", "Advice", "Extensions", "EncryptedAssertion", "Signature", "Object"}
 		e.Tag = tags[op.B%len(tags)]
 		c.note("rename-el:" + e.Tag)
+	case "nest-assertion":
+		// move a whole (possibly signed) Assertion / EncryptedAssertion one level down, under a wrapper
+		// element of the root or under another element, leaving it otherwise intact
+		var cands []*etree.Element
+		for _, e := range els {
+			if (e.Tag == "Assertion" || e.Tag == "EncryptedAssertion") && e.Parent() != nil {
+				cands = append(cands, e)
+			}
+		}
+		if a := pick(cands, op.A); a != nil {
+			holders := []string{"Extensions", "Advice", "StatusDetail", "Object", "Wrapper"}
+			w := etree.NewElement(holders[op.B%len(holders)])
+			w.Space = root.Space
+			p := a.Parent()
+			idx := a.Index()
+			p.RemoveChild(a)
+			w.AddChild(a)
+			switch op.C % 3 {
+			case 0:
+				if idx > len(p.Child) {
+					idx = len(p.Child)
+				}
+				p.InsertChildAt(idx, w)
+			case 1:
+				root.AddChild(w)
+			default:
+				if st := findTag(root, "Status"); st != nil && !isAncestor(a, st) {
+					st.AddChild(w)
+				} else {
+					root.InsertChildAt(0, w)
+				}
+			}
+			c.note("nest-assertion:" + w.Tag)
+		}
 	case "nest-el":
 		// move element A under element B (not its own descendant)
 		if len(els) > 2 {
